@@ -36,10 +36,10 @@ def main():
             meta = json.load(open(os.path.join(d, "meta.json")))
             prop = meta["property"]
             res = dict(dir=d, property=prop, t=time.strftime("%H:%M:%S"))
-            sh("git -C %s checkout -q -- . && git -C %s clean -qfd -e _build" % (wt, wt))
-            r = sh("git -C %s apply --3way %s" % (wt, os.path.join(d, "patch.diff")))
+            sh("git -C %s reset -q --hard && git -C %s clean -qfd -e _build" % (wt, wt))
+            r = sh("git -C %s apply %s" % (wt, os.path.join(d, "patch.diff")))
             if r.returncode != 0:
-                r = sh("git -C %s apply %s" % (wt, os.path.join(d, "patch.diff")))
+                r = sh("git -C %s apply --3way %s" % (wt, os.path.join(d, "patch.diff")))
             res["applies"] = r.returncode == 0
             if not res["applies"]:
                 res["apply_err"] = r.stdout[-300:]
